@@ -91,7 +91,8 @@ LAYOUT_FLAGS = (
 )
 
 # flags that keep the model a plain, runnable looking model with upper case symbols
-MODEL_FLAGS = tuple(f for f in LAYOUT_FLAGS if f not in ('lower_code',))
+# (read_model_from_string only detects NONMEM code by an upper case $PRO, so no lower case record names)
+MODEL_FLAGS = tuple(f for f in LAYOUT_FLAGS if f not in ('lower_code', 'lower'))
 
 
 def _toks(tokens, F, start=0):
@@ -870,6 +871,584 @@ def bounded_roundtrip_replay(rp):
     else:
         res = check_record(case['text'], case.get('rkind'))
     res = [r for r in res if (r[0], r[1]) == (case.get('fid'), case.get('clause'))]
+    if res:
+        return (False, res[0][1] + ': ' + res[0][2])
+    return (True, 'ok')
+
+
+# --------------------------------------------------------------------------------------------------
+# bounded_update_source
+# --------------------------------------------------------------------------------------------------
+
+FID_THETA = NM + 'records/theta_record.py:ThetaRecord.update'
+FID_OMEGA = NM + 'records/omega_record.py:OmegaRecord.update'
+
+C_NOEXC = 'reading a generated model, editing it and update_source() raise no exception'
+C_READ = 'model.code of a freshly read model equals the text'
+C_IDENT = 'update_source() of an unmodified model leaves the code unchanged byte for byte'
+C_IDEM = 'a second update_source() leaves the code unchanged'
+C_EFFECT = 'the edit is expressed in the new code (the code changes)'
+
+# Reference: canonical kinds of NM-TRAN record names (prefix rule, >= 3 letters, plus synonyms)
+_REF_NAMES = (
+    'PROBLEM', 'INPUT', 'DATA', 'SUBROUTINES', 'ABBREVIATED', 'PRED', 'ERROR', 'THETA', 'OMEGA', 'SIGMA',
+    'ESTIMATION', 'COVARIANCE', 'TABLE', 'SIZES', 'MODEL', 'DES', 'SIMULATION', 'ETAS', 'MSFI', 'DESIGN',
+)
+_REF_SYNONYMS = {'INFILE': 'DATA', 'SUBS': 'SUBROUTINES', 'ESTM': 'ESTIMATION', 'COVR': 'COVARIANCE', 'PK': 'PK'}
+
+
+def ref_kind(chunk):
+    m = re.match(r'[ \t]*\$([A-Za-z]+)', chunk)
+    raw = m.group(1).upper()
+    if raw in _REF_SYNONYMS:
+        return _REF_SYNONYMS[raw]
+    if len(raw) >= 3:
+        for name in _REF_NAMES:
+            if name.startswith(raw):
+                return name
+        if 'INFILE'.startswith(raw):
+            return 'DATA'
+    return raw
+
+
+def ref_split(text):
+    """Reference record splitter: a record starts at every line whose first non-blank character is $.
+    Returns [(kind, chunk)]; text before the first record has kind ''."""
+    out = []
+    cur = []
+    for line in text.splitlines(keepends=True):
+        if re.match(r'[ \t]*\$', line):
+            if cur or not out:
+                if cur:
+                    out.append(''.join(cur))
+            cur = [line]
+        else:
+            cur.append(line)
+    if cur:
+        out.append(''.join(cur))
+    res = []
+    for chunk in out:
+        if re.match(r'[ \t]*\$', chunk):
+            res.append((ref_kind(chunk), chunk))
+        else:
+            res.append(('', chunk))
+    return res
+
+
+def _match_segments(N, segments, gaps):
+    """Does N == segments[0] + X1 + segments[1] + ... + Xm + segments[m] with gaps[i][0] <= len(Xi+1) <=
+    gaps[i][1]?  (lists of lines)"""
+    memo = {}
+
+    def rec(i, pos):
+        key = (i, pos)
+        if key in memo:
+            return memo[key]
+        seg = segments[i]
+        ok = False
+        if N[pos:pos + len(seg)] == seg:
+            end = pos + len(seg)
+            if i == len(segments) - 1:
+                ok = end == len(N)
+            else:
+                lo, hi = gaps[i]
+                for g in range(lo, min(hi, len(N) - end) + 1):
+                    if rec(i + 1, end + g):
+                        ok = True
+                        break
+        memo[key] = ok
+        return ok
+
+    return rec(0, 0)
+
+
+def lines_preserved(old_lines, new_lines, edited, removed=False):
+    """Every line of old_lines whose index is not in `edited` appears in new_lines, exactly and in order,
+    with nothing inserted except (when not removed) at least one line in place of each edited line."""
+    edited = sorted(edited)
+    segments = []
+    prev = 0
+    for e in edited:
+        segments.append(old_lines[prev:e])
+        prev = e + 1
+    segments.append(old_lines[prev:])
+    # adjacent edited lines: merge (empty segment between them)
+    gaps = [((0, 0) if removed else (1, 10**6)) for _ in edited]
+    return _match_segments(new_lines, segments, gaps)
+
+
+def unit_spans(lines):
+    """Reference line classifier for abbreviated code: the (first, last) line index of every statement
+    (block IF ... ENDIF and DO WHILE ... ENDDO are one unit, continuation lines belong to their statement).
+    Comment, verbatim and blank lines outside of blocks belong to no statement."""
+    spans = []
+    i = 0
+    n = len(lines)
+    while i < n:
+        code = lines[i].split(';')[0].strip(' \t\x00\r\n')
+        if i == 0:
+            code = re.sub(r'^\$\w+', '', code).strip(' \t\x00')
+        if not code or lines[i].startswith('"'):
+            i += 1
+            continue
+        j = i
+        if re.match(r'IF\s*\(.*\)\s*THEN$', code, re.I):
+            while j < n and not re.match(r'END\s*IF$', lines[j].split(';')[0].strip(' \t\x00\r\n'), re.I):
+                j += 1
+        elif re.match(r'DO\s*WHILE', code, re.I):
+            while j < n and not re.match(r'END\s*DO$', lines[j].split(';')[0].strip(' \t\x00\r\n'), re.I):
+                j += 1
+        else:
+            while j < n and lines[j].split(';')[0].rstrip(' \t\x00\r\n').endswith('&'):
+                j += 1
+        spans.append((i, min(j, n - 1)))
+        i = j + 1
+    return spans
+
+
+def lines_inserted(old_lines, new_lines, lo, hi):
+    """new_lines is old_lines with one non-empty block inserted at a position p, lo <= p <= hi"""
+    n = len(new_lines) - len(old_lines)
+    if n < 1:
+        return False
+    return any(new_lines[:p] == old_lines[:p] and new_lines[p + n:] == old_lines[p:] for p in range(lo, hi + 1))
+
+
+# ---- the edits -----------------------------------------------------------------------------------
+
+DECOR = {
+    '-': [],
+    'C': ['; a comment line'],
+    'V': ['"  VERBATIM=1'],
+    'B': [''],
+    'CB': [';comment then blank', ''],
+    'BC': ['', '  ; blank then indented comment'],
+    'CC': [';; first', ';; second'],
+    'VC': ['" QQ=2', '; after verbatim'],
+    'W': ['  \t'],
+}
+DECOR_QUICK = ('-', 'C', 'V', 'B', 'CB', 'BC')
+DECOR_THOROUGH = tuple(DECOR)
+
+SLOTS = {
+    'advan': ['AUX1=WGT/70', 'TVCL=THETA(1)*WGT', 'AUX2=APGR+1', 'TVV=THETA(2)*WGT'],
+    'pred': ['AUX1=WGT/70', 'TVB=THETA(1)+THETA(2)*WGT', 'AUX2=APGR+1', 'SLP=ETA(2)'],
+}
+TAILS = {
+    'advan': [
+        'IF (APGR.LT.5) THEN', '  ; inside the block', '  TVV=TVV*(1+THETA(3))', 'ELSE', '', '  TVV=TVV*1', 'ENDIF',
+        'CL=TVCL*EXP(ETA(1)) ; clearance', 'V=TVV*EXP(ETA(2))', 'S1=V',
+    ],
+    'pred': [
+        'IF (APGR.LT.5) THEN', '  ; inside the block', '  TVB=TVB*(1+THETA(3))', 'ELSE', '', '  TVB=TVB*1', 'ENDIF',
+        'BASE=TVB*EXP(ETA(1)) ; baseline', 'IPRED=BASE+SLP*TIME', 'W=1', 'Y=IPRED+W*EPS(1)',
+    ],
+}
+LAST_STATEMENT = {'advan': 'S1', 'pred': 'Y'}
+
+
+def code_body(base, decor):
+    """decor: 6 decoration codes: before slot 0..3, after slot 3 (before the tail), after the last line.
+    Returns (lines, index of the line of each slot statement, index of the last statement line)."""
+    lines = []
+    pos = []
+    for i, st in enumerate(SLOTS[base]):
+        lines += DECOR[decor[i]]
+        pos.append(len(lines))
+        lines.append(st)
+    lines += DECOR[decor[4]]
+    tail_start = len(lines)
+    lines += TAILS[base]
+    last = len(lines) - 1
+    lines += DECOR[decor[5]]
+    return lines, pos, tail_start, last
+
+
+def _symbol_of(line):
+    return line.split('=')[0].strip()
+
+
+def _stmt_index(model, name, occurrence=0):
+    k = 0
+    for i, s in enumerate(model.statements):
+        if getattr(s, 'symbol', None) is not None and s.symbol.name == name:
+            if k == occurrence:
+                return i
+            k += 1
+    raise KeyError(name)
+
+
+def _thetas(model):
+    rv_syms = model.random_variables.free_symbols
+    return [p for p in model.parameters if p.symbol not in rv_syms]
+
+
+def apply_edit(model, edit):
+    """Apply a single-component edit through the public modeling API.  edit is a json-able list."""
+    from pharmpy.basic import Expr
+    from pharmpy.model import Assignment
+    from pharmpy import modeling as M
+
+    op = edit[0]
+    if op in ('set_theta', 'fix_theta'):
+        p = _thetas(model)[edit[1]]
+        if op == 'set_theta':
+            return M.set_initial_estimates(model, {p.name: round(p.init / 2 + 0.01, 6)})
+        return M.fix_parameters(model, [p.name])
+    if op in ('set_omega', 'fix_omega', 'set_sigma', 'fix_sigma'):
+        rvs = model.random_variables.etas if 'omega' in op else model.random_variables.epsilons
+        name = rvs.parameter_names[edit[1]]
+        if op.startswith('set'):
+            return M.set_initial_estimates(model, {name: 0.05 if 'omega' in op else 0.02})
+        return M.fix_parameters(model, [name])
+    if op == 'modify':
+        i = _stmt_index(model, edit[1])
+        s = model.statements[i]
+        new = Assignment(s.symbol, s.expression * 2)
+        return model.replace(statements=model.statements[0:i] + new + model.statements[i + 1:])
+    if op == 'remove':
+        i = _stmt_index(model, edit[1])
+        return model.replace(statements=model.statements[0:i] + model.statements[i + 1:])
+    if op == 'insert':  # after the statement defining edit[1], at the top if None
+        i = 0 if edit[1] is None else _stmt_index(model, edit[1]) + 1
+        new = Assignment(Expr.symbol('NEWV'), Expr.symbol('WGT') + 1)
+        return model.replace(statements=model.statements[0:i] + new + model.statements[i:])
+    if op == 'set_est':
+        return M.set_estimation_step(model, 'IMP', idx=0)
+    if op == 'add_est':
+        return M.add_estimation_step(model, 'IMP', idx=edit[1])
+    if op == 'add_cov':
+        return M.add_parameter_uncertainty_step(model, 'SANDWICH')
+    if op == 'remove_cov':
+        return M.remove_parameter_uncertainty_step(model)
+    if op == 'rename':
+        return M.rename_symbols(model, {edit[1]: edit[1] + 'X'})
+    raise ValueError(op)
+
+
+EDIT_LABEL = {
+    'set_theta': 'set_initial_estimates of one theta', 'fix_theta': 'fix_parameters of one theta',
+    'set_omega': 'set_initial_estimates of one omega', 'fix_omega': 'fix_parameters of one omega',
+    'set_sigma': 'set_initial_estimates of one sigma', 'fix_sigma': 'fix_parameters of one sigma',
+    'modify': 'changing one statement', 'remove': 'removing one statement', 'insert': 'adding one statement',
+    'set_est': 'set_estimation_step', 'add_est': 'add_estimation_step', 'add_cov': 'add_parameter_uncertainty_step',
+    'remove_cov': 'remove_parameter_uncertainty_step', 'rename': 'rename_symbols of one symbol',
+}
+EDIT_KINDS = {
+    'set_theta': ('THETA',), 'fix_theta': ('THETA',), 'set_omega': ('OMEGA',), 'fix_omega': ('OMEGA',),
+    'set_sigma': ('SIGMA',), 'fix_sigma': ('SIGMA',), 'set_est': ('ESTIMATION',), 'add_est': ('ESTIMATION',),
+    'add_cov': ('COVARIANCE',), 'remove_cov': ('COVARIANCE',),
+}
+IN_PLACE = ('set_theta', 'fix_theta', 'set_omega', 'fix_omega', 'set_sigma', 'fix_sigma', 'modify', 'remove', 'insert',
+            'set_est', 'rename')
+
+
+def _word_in(word, line):
+    return re.search(r'(?<![A-Za-z0-9_])' + re.escape(word) + r'(?![A-Za-z0-9_])', line.split(';')[0]) is not None
+
+
+def check_edit(text, edit, info):
+    """Contract of update_source after one edit.  info describes where the edited component lives in
+    the generated text: {'code_kind', 'line' / 'lo','hi' / 'symbol', 'rec_ordinal', 'token'}.
+    Returns list of (fid, clause, detail)."""
+    from pharmpy.modeling import read_model_from_string
+
+    op = edit[0]
+    label = EDIT_LABEL[op]
+    try:
+        model = read_model_from_string(text)
+        edited = apply_edit(model, edit)
+        new_text = edited.update_source().code
+    except Exception as e:
+        return [(FID_UPDATE, C_NOEXC, f'{label}: {type(e).__name__}: {str(e)[:200]!r}')]
+    fails = []
+    if new_text == text:
+        fails.append((FID_UPDATE, C_EFFECT, f'{label}: code unchanged'))
+    old = ref_split(text)
+    new = ref_split(new_text)
+    related = EDIT_KINDS.get(op) or (info['code_kind'],)
+    if op == 'rename':
+        related = tuple(k for k, c in old if k in ('PK', 'PRED', 'ERROR') and _word_in(edit[1], c))
+    kinds = []
+    for k, _ in old + new:
+        if k not in kinds:
+            kinds.append(k)
+    for k in kinds:
+        if k in related:
+            continue
+        a = [c for kk, c in old if kk == k]
+        b = [c for kk, c in new if kk == k]
+        if a != b:
+            what = 'text before the first record is' if k == '' else f'${k} records are'
+            j = next((i for i in range(min(len(a), len(b))) if a[i] != b[i]), min(len(a), len(b)))
+            fails.append((FID_UPDATE, f'after {label}: {what} preserved exactly',
+                          f'{len(a)} -> {len(b)} records; ' + (f'{a[j]!r} became {b[j]!r}' if j < min(len(a), len(b))
+                                                                else f'old {a[j:]!r} new {b[j:]!r}')))
+    # relative order of the records that are present before and after
+    a = [k for k, c in old if k not in related]
+    b = [k for k, c in new if k not in related]
+    if sorted(a) == sorted(b) and a != b:
+        fails.append((FID_UPDATE, f'after {label}: preserved records keep their relative order', f'{a} -> {b}'))
+    if op in IN_PLACE and [k for k, _ in old] != [k for k, _ in new]:
+        fails.append((FID_UPDATE, f'after {label}: the sequence of record kinds is unchanged',
+                      f'{[k for k, _ in old]} -> {[k for k, _ in new]}'))
+
+    # same-kind records that do not hold the edited parameter / statement
+    if op in ('set_theta', 'fix_theta', 'set_omega', 'fix_omega', 'set_sigma', 'fix_sigma'):
+        k = related[0]
+        a = [c for kk, c in old if kk == k]
+        b = [c for kk, c in new if kk == k]
+        r = info['rec_ordinal']
+        fid = FID_THETA if k == 'THETA' else FID_OMEGA
+        if len(a) == len(b):
+            others_a = a[:r] + a[r + 1:]
+            others_b = b[:r] + b[r + 1:]
+            if others_a != others_b:
+                fails.append((FID_UPDATE, f'after {label}: ${k} records not holding the edited parameter are preserved exactly',
+                              f'{others_a!r} -> {others_b!r}'))
+            tok = info['token']
+            i = a[r].index(tok)
+            prefix, suffix = a[r][:i], a[r][i + len(tok):]
+            if not (b[r].startswith(prefix) and b[r].endswith(suffix) and len(b[r]) >= len(prefix) + len(suffix)):
+                fails.append((fid, f'after {label}: inside the edited ${k} record everything but the edited value is preserved '
+                              '(comments, other values, layout)', f'{a[r]!r} became {b[r]!r}'))
+        else:
+            fails.append((FID_UPDATE, f'after {label}: the number of ${k} records is unchanged', f'{a!r} -> {b!r}'))
+    if op in ('modify', 'remove', 'insert', 'rename'):
+        code_kinds = related
+        for k in code_kinds:
+            a = [c for kk, c in old if kk == k]
+            b = [c for kk, c in new if kk == k]
+            if len(a) != 1 or len(b) != 1:
+                fails.append((FID_UPDATE, f'after {label}: the number of ${k} records is unchanged', f'{a!r} -> {b!r}'))
+                continue
+            L = a[0].splitlines(keepends=True)
+            N = b[0].splitlines(keepends=True)
+            if op == 'rename':
+                ed = set()
+                for a0, a1 in unit_spans(L):
+                    if any(_word_in(edit[1], re.sub(r'^[ \t]*\$\w+', '', ln)) for ln in L[a0:a1 + 1]):
+                        ed.update(range(a0, a1 + 1))
+                ok = lines_preserved(L, N, sorted(ed))
+            elif op == 'insert':
+                ok = lines_inserted(L, N, info['lo'], info['hi'])
+            else:
+                ok = lines_preserved(L, N, info['lines'], removed=(op == 'remove'))
+            if not ok:
+                fails.append((FID_CODE, f'after {label}: inside the edited code record all other lines (statements, comments, '
+                              'verbatim, blank) are preserved exactly and in order', f'{a[0]!r} became {b[0]!r}'))
+    return fails
+
+
+def check_identity(text):
+    from pharmpy.modeling import read_model_from_string
+
+    try:
+        model = read_model_from_string(text)
+        code0 = model.code
+        m1 = model.update_source()
+        code1 = m1.code
+        code2 = m1.update_source().code
+    except Exception as e:
+        return [(FID_UPDATE, C_NOEXC, f'unmodified model: {type(e).__name__}: {str(e)[:200]!r}')]
+    fails = []
+    if code0 != text:
+        fails.append((FID_UPDATE, C_READ, _first_diff(text, code0)))
+    if code1 != text:
+        fails.append((FID_UPDATE, C_IDENT, _first_diff(text, code1)))
+    if code2 != code1:
+        fails.append((FID_UPDATE, C_IDEM, _first_diff(code1, code2)))
+    return fails
+
+
+# ---- case construction ---------------------------------------------------------------------------
+
+
+def us_case_text(case):
+    """case -> (text, edit, info)"""
+    base = case['base']
+    flags = tuple(case['flags'])
+    kw = {}
+    info = {}
+    edit = case.get('edit')
+    if case.get('decor') is not None:
+        lines, pos, tail_start, last = code_body(base, case['decor'])
+        kw['pk_body'] = lines
+        info['body'] = (lines, pos, tail_start, last)
+    if case.get('cov') is False:
+        kw['cov'] = False
+    recs = build_records(base, flags, **kw)
+    text, pre, chunks = render(recs, flags)
+    if edit is None:
+        return text, None, info
+    op = edit[0]
+    code_kind = 'PK' if base == 'advan' else 'PRED'
+    info['code_kind'] = code_kind
+    if op in ('modify', 'remove', 'insert'):
+        if case.get('decor') is not None:
+            lines, pos, tail_start, last = info['body']
+            off = 1  # the record name line
+            syms = [_symbol_of(s) for s in SLOTS[base]]
+            if op == 'insert':
+                if edit[1] is None:
+                    info['lo'], info['hi'] = 1, pos[0] + off
+                else:
+                    k = syms.index(edit[1])
+                    nxt = pos[k + 1] if k + 1 < len(pos) else tail_start
+                    info['lo'], info['hi'] = pos[k] + off + 1, nxt + off
+            elif edit[1] == LAST_STATEMENT[base]:
+                info['lines'] = [last + off]
+            elif edit[1] in syms:
+                info['lines'] = [pos[syms.index(edit[1])] + off]
+            else:
+                raise ValueError(edit)
+        else:
+            # the statement is located in the rendered record by its text
+            kind = case.get('code_kind', code_kind)
+            info['code_kind'] = kind
+            chunk = next(c for k, c in chunks if k == kind)
+            L = chunk.splitlines(keepends=True)
+            idx = [i for i, ln in enumerate(L)
+                   if re.match(r'(?:[ \t]*\$\w+[ \t\x00]+)?[ \t\x00]*' + re.escape(edit[1]) + r'[ \t\x00]*=', ln)]
+            first = idx[0]
+            # continuation lines belong to the statement
+            span = [first]
+            while L[span[-1]].rstrip().endswith('&'):
+                span.append(span[-1] + 1)
+            if op == 'insert':
+                nxt = span[-1] + 1
+                while nxt < len(L) and (not L[nxt].strip(' \t\x00\r\n') or L[nxt].lstrip().startswith((';', '"'))):
+                    nxt += 1
+                info['lo'], info['hi'] = span[-1] + 1, nxt
+            else:
+                info['lines'] = span
+    if op in ('set_theta', 'fix_theta'):
+        if base == 'advan':
+            layout = [(0, '(0,0.00469307)'), (1, '(0,1.00916)'), (2, '(-.99,.1)')]
+        else:
+            layout = [(0, '(0,5)'), (0, '(0.1)'), (1, '(-.99,.1,10)')]
+        info['rec_ordinal'], info['token'] = layout[edit[1]]
+    if op in ('set_omega', 'fix_omega'):
+        info['rec_ordinal'], info['token'] = [(0, '0.0309626'), (1, '0.031128')][edit[1]]
+    if op in ('set_sigma', 'fix_sigma'):
+        info['rec_ordinal'], info['token'] = 0, '0.013241'
+    return text, edit, info
+
+
+def record_edits(base):
+    """edits whose target is a whole record / parameter (independent of the code layout)"""
+    edits = []
+    for i in range(3):
+        edits += [['set_theta', i], ['fix_theta', i]]
+    for i in range(2):
+        edits += [['set_omega', i], ['fix_omega', i]]
+    edits += [['set_sigma', 0], ['fix_sigma', 0]]
+    edits += [['set_est'], ['add_est', None], ['add_est', 0], ['remove_cov']]
+    return edits
+
+
+def code_edits_plain(base):
+    """code edits on the base model bodies (statement located by text)"""
+    if base == 'advan':
+        return [
+            (['modify', 'TVCL'], 'PK'), (['modify', 'TVV'], 'PK'), (['modify', 'V'], 'PK'), (['modify', 'S1'], 'PK'),
+            (['insert', 'TVCL'], 'PK'), (['insert', 'CL'], 'PK'), (['rename', 'TVCL'], 'PK'), (['rename', 'V'], 'PK'),
+            (['modify', 'W'], 'ERROR'), (['modify', 'IPRED'], 'ERROR'), (['remove', 'IPRED'], 'ERROR'),
+            (['insert', 'W'], 'ERROR'), (['rename', 'W'], 'ERROR'),
+        ]
+    return [
+        (['modify', 'TVB'], 'PRED'), (['modify', 'BASE'], 'PRED'), (['modify', 'SLP'], 'PRED'), (['modify', 'Y'], 'PRED'),
+        (['insert', 'TVB'], 'PRED'), (['insert', 'W'], 'PRED'), (['rename', 'BASE'], 'PRED'), (['rename', 'W'], 'PRED'),
+    ]
+
+
+def gen_us_cases(tier):
+    quick = tier == 'quick'
+    # (a) identity
+    for base in ('advan', 'pred'):
+        for fl in _flag_sets(MODEL_FLAGS, 2 if quick else 3):
+            yield {'base': base, 'flags': list(fl), 'edit': None}
+    # (b1) record level edits and code edits x layout variants
+    for base in ('advan', 'pred'):
+        for fl in _flag_sets(MODEL_FLAGS, 1 if quick else 2):
+            if 'lower' in fl and False:
+                continue
+            for edit in record_edits(base):
+                yield {'base': base, 'flags': list(fl), 'edit': edit}
+            yield {'base': base, 'flags': list(fl), 'edit': ['add_cov'], 'cov': False}
+            for edit, kind in code_edits_plain(base):
+                yield {'base': base, 'flags': list(fl), 'edit': edit, 'code_kind': kind}
+    # (b2) code edits x decorations around the edited statement
+    D = DECOR_QUICK if quick else DECOR_THOROUGH
+    for base in ('advan', 'pred'):
+        syms = [_symbol_of(s) for s in SLOTS[base]]
+        edits = [(['modify', s], k, k + 1) for k, s in enumerate(syms)]
+        edits += [(['remove', syms[0]], 0, 1), (['remove', syms[2]], 2, 3)]
+        edits += [(['insert', None], 0, 0)] + [(['insert', s], k + 1, k + 1) for k, s in enumerate(syms)]
+        edits += [(['modify', LAST_STATEMENT[base]], 4, 5)]
+        edits += [(['rename', syms[1]], 1, 2)]
+        flagsets = [()] if quick else [(), ('crlf',), ('trail_ws',), ('sameline',)]
+        for fl in flagsets:
+            for edit, g1, g2 in edits:
+                for d1 in D:
+                    for d2 in (D if g2 != g1 else ('-',)):
+                        others = D if not quick else (None,)
+                        for j, do in enumerate(others):
+                            decor = [D[(i + len(d1) + len(d2)) % len(D)] for i in range(6)]
+                            if do is not None:
+                                decor[(g2 + 1) % 6] = do
+                            decor[g1] = d1
+                            if g2 != g1:
+                                decor[g2] = d2
+                            yield {'base': base, 'flags': list(fl), 'edit': edit, 'decor': decor}
+
+
+def _us_worker(case):
+    try:
+        text, edit, info = us_case_text(case)
+    except Exception as e:  # generator problem: report loudly
+        return [(FID_UPDATE, 'CHECKER ERROR', f'{type(e).__name__}: {e} for {case}', case, 0)], False
+    if edit is None:
+        res = check_identity(text)
+    else:
+        res = check_edit(text, edit, info)
+    return [(f, c, d + f' [case {case}]', case, len(text)) for f, c, d in res], True
+
+
+def bounded_update_source(tier):
+    import multiprocessing as mp
+
+    seen = set()
+    cases = []
+    for c in gen_us_cases(tier):
+        key = repr(sorted(c.items()))
+        if key not in seen:
+            seen.add(key)
+            cases.append(c)
+    fails = {}
+    n_ident = sum(1 for c in cases if c['edit'] is None)
+    ctx = mp.get_context('fork')
+    with ctx.Pool(NPROC, initializer=_pool_init) as pool:
+        for res, _ in pool.imap_unordered(_us_worker, cases, chunksize=4):
+            _collect(fails, res)
+    return {
+        'cases': len(cases),
+        'nontrivial': len(cases),
+        'bound': f'{n_ident} unmodified models (2 base models x all subsets of <= {2 if tier == "quick" else 3} of '
+        f'{len(MODEL_FLAGS)} layout variants) + {len(cases) - n_ident} single edits: 17 parameter/estimation/covariance '
+        f'edits and 8-13 statement edits x layout variant subsets of size <= {1 if tier == "quick" else 2}, and '
+        f'14 statement edits (change/remove/add/rename at every slot) x all pairs of '
+        f'{len(DECOR_QUICK if tier == "quick" else DECOR_THOROUGH)} comment/verbatim/blank decorations directly above and below',
+        'samples': [repr(cases[1]), repr(cases[n_ident + 3]), repr(cases[-1])],
+        'fails': _fails_list(fails, 'bounded_update_source_replay'),
+    }
+
+
+def bounded_update_source_replay(rp):
+    case = dict(rp['case'])
+    fid, clause = case.pop('fid', None), case.pop('clause', None)
+    res, _ = _us_worker(case)
+    res = [r for r in res if (r[0], r[1]) == (fid, clause)]
     if res:
         return (False, res[0][1] + ': ' + res[0][2])
     return (True, 'ok')
